@@ -43,7 +43,7 @@ class ReplayDiverged(Exception):
 class SimThread:
     __slots__ = ('index', 'thread', 'gate', 'state', 'join_target', 'deadline', 'wake_at', 'pending_exc',
                  'pending_delay', 'events', 'ident', 'budget', 'priority', 'frozen_until', 'blocked_on',
-                 'async_landed', 'name', 'op_born', 'zombie', 'done_at', 'last_site', 'sent_site', 'student_events')
+                 'async_landed', 'name', 'op_born', 'zombie', 'done_at', 'last_site', 'sent_site', 'student_events', 'line_events')
 
     def __init__(self, index, thread):
         self.index = index
@@ -70,6 +70,7 @@ class SimThread:
         self.last_site = None
         self.sent_site = None
         self.student_events = 0
+        self.line_events = 0
 
 
 class Scheduler:
@@ -297,6 +298,8 @@ class Scheduler:
         me.last_site = (code.co_filename, code.co_name, line)
         if kind == 'S':
             me.student_events += 1
+        if kind != 'p':
+            me.line_events += 1        # INSTRUCTION-granularity steps ('p') are not comparable with LINE budgets
         if me.budget is not None:
             me.budget -= 1
         if self.nevents > self.max_events:
@@ -396,7 +399,7 @@ class Scheduler:
         if target.state != 'done':
             self.timer_fired += 1
             target.zombie = True
-            self.probe['timer_at'] = (me.events, world.CLOCK.now)
+            self.probe['timer_at'] = (me.line_events, world.CLOCK.now)
             late = self.params.get('zombie_late')
             if late:
                 target.frozen_until = self.nevents + late
